@@ -74,7 +74,11 @@ func (tm *typesMap) TypeString(typ types.Type) string {
 }
 
 func (tm *typesMap) FieldStrings(fields []*types.Var) ([]string, error) {
-	strct := types.NewStruct(fields, nil)
+	return StructFieldStrings(tm, types.NewStruct(fields, nil))
+}
+
+// StructFieldStrings returns the field declarations of a struct type, one per line as gofmt prints them, with their tags.
+func StructFieldStrings(tm TypesMap, strct *types.Struct) ([]string, error) {
 	strctStr, err := format.Source([]byte("var a " + tm.TypeString(strct)))
 	if err != nil {
 		return nil, err
